@@ -766,3 +766,9 @@ V('c19-envelope-reset-drift', 'C19', 'C19.R8',
   ('pywbem/_cim_operations.py', "        self._last_raw_reply = None\n        self._last_reply_len = 0\n        self._last_server_response_time = None\n        if self.debug:\n            self._last_request = None  # will be set upon access\n            self._last_request_xml_item = req_xml\n            self._last_reply = None\n            self._last_reply_xml_item = None\n\n        # Send request and receive response\n        reply_data, self._last_server_response_time = wbem_request(\n            self, request_data, cimxml_headers)\n\n        # Set attributes recording the response, part 1.\n        # Only those that can be done without parsing (which can fail).\n        self._last_raw_reply = reply_data\n        self._last_reply_len = len(reply_data)\n\n        # Parse the XML into a tuple tree (may raise CIMXMLParseError or\n        # XMLParseError):\n        tt_ = xml_to_tupletree_sax(reply_data, \"CIM-XML response\")\n        tp = TupleParser(self.conn_id)\n        tup_tree = tp.parse_cim(tt_)\n\n        # Set attributes recording the response, part 2.\n        if self.debug:\n            self._last_reply = None  # will be set upon access\n            self._last_reply_xml_item = reply_data\n\n        # Check the tuple tree\n\n        if tup_tree[0] != 'CIM':\n            raise CIMXMLParseError(\n                _format(\"Expecting CIM element, got {0}\", tup_tree[0]),\n                conn_id=self.conn_id)\n        tup_tree = tup_tree[2]\n\n        if tup_tree[0] != 'MESSAGE':\n            raise CIMXMLParseError(\n                _format(\"Expecting MESSAGE element, got {0}\", tup_tree[0]),\n                conn_id=self.conn_id)\n        tup_tree = tup_tree[2]\n\n        if tup_tree[0] != 'SIMPLERSP':\n            raise CIMXMLParseError(\n                _format(\"Expecting SIMPLERSP element, got {0}\", tup_tree[0]),\n                conn_id=self.conn_id)\n        tup_tree = tup_tree[2]\n\n        if tup_tree[0] != 'METHODRESPONSE':",
    "        self._last_reply = None\n        self._last_reply_len = 0\n        self._last_server_response_time = None\n        if self.debug:\n            self._last_request = None  # will be set upon access\n            self._last_request_xml_item = req_xml\n            self._last_reply = None\n            self._last_reply_xml_item = None\n\n        # Send request and receive response\n        reply_data, self._last_server_response_time = wbem_request(\n            self, request_data, cimxml_headers)\n\n        # Set attributes recording the response, part 1.\n        # Only those that can be done without parsing (which can fail).\n        self._last_raw_reply = reply_data\n        self._last_reply_len = len(reply_data)\n\n        # Parse the XML into a tuple tree (may raise CIMXMLParseError or\n        # XMLParseError):\n        tt_ = xml_to_tupletree_sax(reply_data, \"CIM-XML response\")\n        tp = TupleParser(self.conn_id)\n        tup_tree = tp.parse_cim(tt_)\n\n        # Set attributes recording the response, part 2.\n        if self.debug:\n            self._last_reply = None  # will be set upon access\n            self._last_reply_xml_item = reply_data\n\n        # Check the tuple tree\n\n        if tup_tree[0] != 'CIM':\n            raise CIMXMLParseError(\n                _format(\"Expecting CIM element, got {0}\", tup_tree[0]),\n                conn_id=self.conn_id)\n        tup_tree = tup_tree[2]\n\n        if tup_tree[0] != 'MESSAGE':\n            raise CIMXMLParseError(\n                _format(\"Expecting MESSAGE element, got {0}\", tup_tree[0]),\n                conn_id=self.conn_id)\n        tup_tree = tup_tree[2]\n\n        if tup_tree[0] != 'SIMPLERSP':\n            raise CIMXMLParseError(\n                _format(\"Expecting SIMPLERSP element, got {0}\", tup_tree[0]),\n                conn_id=self.conn_id)\n        tup_tree = tup_tree[2]\n\n        if tup_tree[0] != 'METHODRESPONSE':"),
   'sibling-differs')
+
+# ---- C04.R4b / C10.R9 ---------------------------------------------------------
+V('c04-proplist-falsy', 'C04', 'C04.R4b',
+  ('pywbem/_cim_operations.py', "    if property_list is None:\n        pass\n    elif isinstance(property_list, (list, tuple)):\n        pass", "    if not property_list:\n        property_list = None\n    elif isinstance(property_list, (list, tuple)):\n        pass"), 'truthiness-of-parameter')
+V('c10-proplist-falsy-mock', 'C10', 'C10.R9',
+  ('pywbem_mock/_baseprovider.py', "        if property_list is not None:", "        if property_list:"), 'truthiness-of-propertylist')
